@@ -373,6 +373,13 @@ def main():
             lines += ["check(%s)" % shape(d, l) for d in (14, 20, top) for l in ("alpha", "beta")]
             lines += [pair % ab for ab in ((1, 1), (1, 2))]
             add("deep-nesting", DEEP_PATCH, {"a.go": ("package p\n\nfunc h() {\n\t" + "\n\t".join(lines) + "\n}\n").encode()})
+    # description comments of every shape above a change that applies, in the modes that echo them
+    DESCS = ["#", "# ", "#\t", "##", "# -----", "#=====", "# text\n#\n# more", "#\n#\n#", "# \xc3\xa9", "#" + "x" * 300, "# a\n\n# b", "#!", "# %s %d %%", "#\r"]
+    for dsc in DESCS:
+        pt = (dsc + "\n@@\nvar x expression\n@@\n-foo(x)\n+bar(x)\n").encode("latin-1")
+        for fl in (["-d"], ["--print-only"], ["-d", "--print-only"], []):
+            add("description", pt, hsrc, fl)
+            add("description", b"@@\n@@\n-zz()\n+yy()\n\n" + pt, hsrc, fl)
     ill = []
     for k in range(len(ILL_TYPED) * (5 if thorough else 2)):
         p, f = ill_typed_case(rng, k)
